@@ -37,7 +37,10 @@ PROPS = {
                   r'^format :: impl NaiveDateTime / fn (new|year|month|day|hour24|hour12|minute|sec|usec|negative)$',
                   r'^common :: fn the_day_of_year$',
                   r'^(date|time|interval|timestamp) :: impl (Date|Time|IntervalYM|IntervalDT|Timestamp) / fn extract$',
-                  r'^oracle :: impl Date / fn extract$'],
+                  r'^oracle :: impl Date / fn extract$',
+                  # the weekday tokens are rendered from DateTime::date() of the value
+                  r'^(date|timestamp|oracle) :: impl DateTime for (Date|Timestamp) / fn date$',
+                  r'^(timestamp|oracle) :: impl (Timestamp|Date) / fn date$'],
         'kinds': FUNCTIONAL,
     },
     'C05': {
